@@ -69,6 +69,15 @@ class Disp:
         """Call terminators (constructing the future) of publish_fn/control/control_pkt in body."""
         return list(body.calls_to(r'^%s::(%s)$' % (re.escape(self.mod), what)))
 
+    def set_calls(self, body, method, field):
+        """Calls of HashSet::<method> on the per-connection id set stored in `field`."""
+        res = []
+        for bi, t in body.calls_to(r'HashSet::<T, S, A>::%s$' % method):
+            ap = call_recv_path(body, t, 0)
+            if ap and ap[-1] == field:
+                res.append((bi, t, ap))
+        return res
+
     def inflight_calls(self, body, method):
         """Calls of HashSet::<method> on the inbound in-flight id set."""
         res = []
